@@ -487,16 +487,23 @@ def sectionName (pre : Str) : Str :=
   | some t => trimSpace t
   | none => name
 
-def datumRename (sr : SR α) : Res α :=
-  if sr.datumCode.length < 2 then panicR sr "slice bounds out of range" else
-  let dc := sr.datumCode
+/-- the renaming chain of `datumRename` on the code alone -/
+def renameHead (dc : Str) : Str :=
   let dc := if dc.take 2 = s "d_" then dc.drop 2 else dc
-  let dc := if dc = s "new_zealand_geodetic_datum_1949" || dc = s "new_zealand_1949" then s "nzgd49" else dc
-  let (dc, sph) := if dc = s "wgs_1984" then (s "wgs84", sr.sphere || sr.name = s "Mercator_Auxiliary_Sphere") else (dc, sr.sphere)
+  if dc = s "new_zealand_geodetic_datum_1949" || dc = s "new_zealand_1949" then s "nzgd49" else dc
+
+def renameCode (dc0 : Str) : Str :=
+  let dc := renameHead dc0
+  let dc := if dc = s "wgs_1984" then s "wgs84" else dc
   let dc := if hasSuffix dc (s "_ferro") then dc.take (dc.length - 6) else dc
   let dc := if hasSuffix dc (s "_jakarta") then dc.take (dc.length - 8) else dc
-  let dc := if containsSub dc (s "belge") then s "rnb72" else dc
-  ok { sr with datumCode := dc, sphere := sph }
+  if containsSub dc (s "belge") then s "rnb72" else dc
+
+def datumRename (sr : SR α) : Res α :=
+  if sr.datumCode.length < 2 then panicR sr "slice bounds out of range" else
+  ok { sr with datumCode := renameCode sr.datumCode,
+               sphere := if renameHead sr.datumCode = s "wgs_1984" then sr.sphere || sr.name = s "Mercator_Auxiliary_Sphere"
+                         else sr.sphere }
 
 def isQuote (c : Char) : Bool := c = '"'
 def isQuoteOrSpace (c : Char) : Bool := c = '"' || c = ' '
@@ -589,78 +596,115 @@ def parseWKTTowgs84 (sr : SR α) (d : Str) : Res α :=
       | .error _ => fail { sr with datumParams := done ++ List.replicate (r.length + 1) (ofRat 0) } "TOWGS84"
   go [] f
 
-abbrev Rec (α : Type) := List Str → Str → SR α → Res α
+/-- What the section handlers need from the "data" of a section.  The Go code works on the text
+(`strOps`: δ = `Str`); the token-level parser works on the argument list of the section (`treeOps`
+in Spec.lean).  The handlers below are written ONCE, over `DataOps`, so both levels run the same code. -/
+structure DataOps (δ : Type) where
+  /-- `splitWKTName`: the name (text before the first comma) and the data behind it -/
+  splitName : δ → Option (Str × δ)
+  /-- the text of the section as the leaf handlers (`strings.Split(secData, ",")`) see it -/
+  text : δ → Str
+  /-- `findWKTSections` + slicing + name: the top-level bracket sections (name, data) and whether
+  every opened section was closed -/
+  sections : δ → List (Str × δ) × Bool
 
-def parseWKTDatum (rec : Rec α) (secName : List Str) (d : Str) (sr : SR α) : Res α :=
+abbrev Rec (α δ : Type) := List Str → δ → SR α → Res α
+
+variable {δ : Type}
+
+def parseWKTDatumG (ops : DataOps δ) (rec : Rec α δ) (secName : List Str) (d : δ) (sr : SR α) : Res α :=
   let last := secName.getLastD []
   if last = s "DATUM" then
-    match splitWKTName d with
+    match ops.splitName d with
     | none => panicR sr "slice bounds out of range [:-1]"
     | some (name, data) =>
       match datumRename { sr with datumCode := toLower (trim isQuoteOrSpace name) } with
       | (sr, some e) => (sr, some e)
       | (sr, none) => rec secName data sr
-  else if last = s "SPHEROID" then parseWKTSpheroid sr d
-  else if last = s "TOWGS84" then parseWKTTowgs84 sr d
+  else if last = s "SPHEROID" then parseWKTSpheroid sr (ops.text d)
+  else if last = s "TOWGS84" then parseWKTTowgs84 sr (ops.text d)
   else if last = s "AUTHORITY" then ok sr
   else fail sr "parseWKTDatum: unknown WKT section"
 
-def parseWKTGeogCS (rec : Rec α) (secName : List Str) (d : Str) (sr : SR α) : Res α :=
+def parseWKTGeogCSG (ops : DataOps δ) (rec : Rec α δ) (secName : List Str) (d : δ) (sr : SR α) : Res α :=
   let last := secName.getLastD []
   if last = s "GEOGCS" then
-    match splitWKTName d with
+    match ops.splitName d with
     | none => panicR sr "slice bounds out of range [:-1]"
     | some (name, data) =>
       match datumRename { sr with datumCode := toLower name } with
       | (sr, some e) => (sr, some e)
       | (sr, none) => rec secName data sr
-  else if secName.contains (s "DATUM") then parseWKTDatum rec secName d sr
-  else if last = s "PRIMEM" then parseWKTPrimeM sr d
-  else if last = s "UNIT" && sr.name = s "longlat" then parseWKTUnit sr d
+  else if secName.contains (s "DATUM") then parseWKTDatumG ops rec secName d sr
+  else if last = s "PRIMEM" then parseWKTPrimeM sr (ops.text d)
+  else if last = s "UNIT" && sr.name = s "longlat" then parseWKTUnit sr (ops.text d)
   else if last = s "AUTHORITY" then ok sr
   else if last = s "METADATA" then ok sr
   else if last = s "AXIS" then ok sr
   else fail sr "parseWKTGeogCS: unknown WKT section"
 
-def parseWKTProjCS (rec : Rec α) (secName : List Str) (d : Str) (sr : SR α) : Res α :=
+/-- `sr.parseWKTGeogCS(secName, secData)` as a statement: the returned error is dropped (a panic is not) -/
+def dropErr (r : Res α) : Res α :=
+  match r with
+  | (sr, some (.error _)) => ok sr
+  | r => r
+
+def parseWKTProjCSG (ops : DataOps δ) (rec : Rec α δ) (secName : List Str) (d : δ) (sr : SR α) : Res α :=
   match secName with
   | [_] =>
-    match splitWKTName d with
+    match ops.splitName d with
     | none => panicR sr "slice bounds out of range [:-1]"
     | some (name, data) => rec secName data { sr with srsCode := name }
   | _ :: k :: _ =>
-    if k = s "GEOGCS" then
-      match parseWKTGeogCS rec secName d sr with
-      | (sr, some (.error _)) => ok sr          -- the returned error is dropped
-      | r => r
-    else if k = s "PRIMEM" then parseWKTPrimeM sr d
-    else if k = s "PROJECTION" then ok (parseWKTProjection sr d)
-    else if k = s "PARAMETER" then parseWKTParameter sr d
-    else if k = s "UNIT" then parseWKTUnit sr d
+    if k = s "GEOGCS" then dropErr (parseWKTGeogCSG ops rec secName d sr)
+    else if k = s "PRIMEM" then parseWKTPrimeM sr (ops.text d)
+    else if k = s "PROJECTION" then ok (parseWKTProjection sr (ops.text d))
+    else if k = s "PARAMETER" then parseWKTParameter sr (ops.text d)
+    else if k = s "UNIT" then parseWKTUnit sr (ops.text d)
     else if k = s "AUTHORITY" || k = s "AXIS" then ok sr
     else fail sr "parseWKTProjCS: unknown WKT section"
   | [] => panicR sr "index out of range"
 
-def runSections (step : Str × Str → SR α → Res α) : List (Str × Str) → SR α → Res α
+def runSections (step : Str × δ → SR α → Res α) : List (Str × δ) → SR α → Res α
   | [], sr => ok sr
   | x :: r, sr =>
     match step x sr with
     | (sr, some e) => (sr, some e)
     | (sr, none) => runSections step r sr
 
+/-- one top-level section of `parseWKTSection`'s loop -/
+def sectionStep (ops : DataOps δ) (rec : Rec α δ) (secName : List Str) (x : Str × δ) (sr : SR α) : Res α :=
+  let secNameO := secName ++ [x.1]
+  let top := secNameO.headD []
+  if top = s "PROJCS" then parseWKTProjCSG ops rec secNameO x.2 sr
+  else if top = s "GEOGCS" then parseWKTGeogCSG ops rec secNameO x.2 { sr with name := s "longlat" }
+  else if top = s "LOCAL_CS" then ok { sr with name := s "identity", isLocal := true }
+  else fail sr "unknown WKT section name"
+
 /-- `parseWKTSection` (fuel = bracket nesting depth) -/
-def parseWKTSection : Nat → List Str → Str → SR α → Res α
+def parseWKTSectionG (ops : DataOps δ) : Nat → List Str → δ → SR α → Res α
   | 0, _, _, sr => (sr, some (.unsupported "fuel"))
   | fuel+1, secName, d, sr =>
-    let (secs, balanced) := findSections d
+    let (secs, balanced) := ops.sections d
     if !balanced then fail sr "malformed WKT section" else
-    runSections (fun (pre, inner) sr =>
-      let secNameO := secName ++ [sectionName pre]
-      let top := secNameO.headD []
-      if top = s "PROJCS" then parseWKTProjCS (parseWKTSection fuel) secNameO inner sr
-      else if top = s "GEOGCS" then parseWKTGeogCS (parseWKTSection fuel) secNameO inner { sr with name := s "longlat" }
-      else if top = s "LOCAL_CS" then ok { sr with name := s "identity", isLocal := true }
-      else fail sr "unknown WKT section name") secs sr
+    runSections (sectionStep ops (parseWKTSectionG ops fuel) secName) secs sr
+
+/-- the text level (what the Go code does) -/
+def strOps : DataOps Str where
+  splitName := splitWKTName
+  text := id
+  sections d := ((findSections d).1.map fun p => (sectionName p.1, p.2), (findSections d).2)
+
+def parseWKTSection : Nat → List Str → Str → SR α → Res α := parseWKTSectionG strOps
+
+/-- the statements of `wkt` after the sections have been read -/
+def wktFinish (sr : SR α) : SR α :=
+  let sr := if sr.name = s "Mercator_Auxiliary_Sphere" && sr.datumCode = s "wgs84" then { sr with sphere := true } else sr
+  let sr := { sr with x0 := mul sr.x0 sr.toMeter, y0 := mul sr.y0 sr.toMeter }
+  let sr := if isNaN sr.lat0 then { sr with lat0 := sr.lat1 } else sr
+  if isNaN sr.long0 && !isNaN sr.longC &&
+      (sr.name = s "Albers_Conic_Equal_Area" || sr.name = s "Equidistant_Conic" || sr.name = s "Lambert_Azimuthal_Equal_Area")
+    then { sr with long0 := sr.longC } else sr
 
 /-- `wkt`.  Order independence: every section handler only WRITES its own fields (PARAMETER values are
 stored raw, UNIT stores `ToMeter`), and the steps that combine fields written by different sections —
@@ -669,12 +713,7 @@ sections have been read, so the clause order of the text cannot matter (`C20_wkt
 the order switches of `Style` exercise it on the real code). -/
 def wkt (w : Str) : Except Err (SR α) :=
   let (sr, e) := parseWKTSection (w.length + 1) [] w newSR
-  let sr := if sr.name = s "Mercator_Auxiliary_Sphere" && sr.datumCode = s "wgs84" then { sr with sphere := true } else sr
-  let sr := { sr with x0 := mul sr.x0 sr.toMeter, y0 := mul sr.y0 sr.toMeter }
-  let sr := if isNaN sr.lat0 then { sr with lat0 := sr.lat1 } else sr
-  let sr := if isNaN sr.long0 && !isNaN sr.longC &&
-      (sr.name = s "Albers_Conic_Equal_Area" || sr.name = s "Equidistant_Conic" || sr.name = s "Lambert_Azimuthal_Equal_Area")
-    then { sr with long0 := sr.longC } else sr
+  let sr := wktFinish sr
   match e with
   | some e => .error e
   | none => .ok sr
